@@ -534,7 +534,7 @@ pub struct OutcomeCase {
     pub noise: u8,
 }
 
-pub const KINDS: [(&str, u8); 12] = [
+pub const KINDS: [(&str, u8); 18] = [
     ("read", 1),
     ("command_sbo", 2),
     ("command_direct", 1),
@@ -547,6 +547,13 @@ pub const KINDS: [(&str, u8); 12] = [
     ("empty_response", 1),
     ("link_status", 1),
     ("read_file", 4),
+    ("file_auth", 1),
+    ("file_open", 1),
+    ("file_write_block", 1),
+    ("file_close", 1),
+    ("file_info", 1),
+    // open, one block (flagged last), close
+    ("read_directory", 3),
 ];
 
 #[derive(Clone, Default)]
@@ -587,6 +594,21 @@ impl FileReader for FileLog {
 }
 
 /// the faithful outstation: the proper answer to any request of the kinds above
+/// g70v7 file descriptor (IEEE 1815 A.22.7): name offset, name size, type, file size, time of creation (48 bit),
+/// permissions, request id, name
+fn file_descriptor(name: &[u8]) -> Vec<u8> {
+    let mut o = vec![];
+    o.extend_from_slice(&20u16.to_le_bytes());
+    o.extend_from_slice(&(name.len() as u16).to_le_bytes());
+    o.extend_from_slice(&1u16.to_le_bytes());
+    o.extend_from_slice(&1234u32.to_le_bytes());
+    o.extend_from_slice(&ra::u48(1_600_000_000_000));
+    o.extend_from_slice(&0x01A4u16.to_le_bytes());
+    o.extend_from_slice(&0u16.to_le_bytes());
+    o.extend_from_slice(name);
+    o
+}
+
 fn answer(req: &Fragment) -> Fragment {
     let mut r = Fragment {
         fir: true,
@@ -615,13 +637,18 @@ fn answer(req: &Fragment) -> Fragment {
                     req.objects[13],
                 ]);
                 let mut body = handle.to_vec();
-                let wire_block = if block >= 1 {
+                let directory = handle == [9, 0, 0, 0];
+                let wire_block = if block >= 1 || directory {
                     block | 0x8000_0000
                 } else {
                     block
                 };
                 body.extend_from_slice(&wire_block.to_le_bytes());
-                body.extend_from_slice(&[1, 2, 3, 4]);
+                if directory {
+                    body.extend(file_descriptor(b"x.bin"));
+                } else {
+                    body.extend_from_slice(&[1, 2, 3, 4]);
+                }
                 r.objects = ff(5, body);
             } else {
                 r.objects = ra::h_range8(1, 2, 0, 1, &[0x81, 0x01]);
@@ -634,7 +661,26 @@ fn answer(req: &Fragment) -> Fragment {
             // OPEN_FILE / CLOSE_FILE -> file command status: handle, size, max block size, request id, status
             let mut body = vec![7, 0, 0, 0, 8, 0, 0, 0, 0, 2, 0, 0, 0];
             body[12] = 0;
+            // the directory "d" is opened with handle 9 (and closed with it)
+            let is_dir_open = req.func == 25 && req.objects.ends_with(b"d") && !req.objects.ends_with(b".txt");
+            let is_dir_close = req.func == 26 && req.objects.len() >= 10 && req.objects[6..10] == [9, 0, 0, 0];
+            if is_dir_open || is_dir_close {
+                body[0] = 9;
+            }
             r.objects = ff(4, body);
+        }
+        func::WRITE if req.objects.len() >= 14 && req.objects[0] == 70 && req.objects[1] == 5 => {
+            // file transport status: handle, block number, status
+            let mut body = req.objects[6..14].to_vec();
+            body.push(0);
+            r.objects = ff(6, body);
+        }
+        28 => r.objects = ff(7, file_descriptor(b"a.txt")),
+        29 => {
+            // authentication: user name offset/size, password offset/size, authentication key
+            let mut body = vec![12, 0, 0, 0, 12, 0, 0, 0];
+            body.extend_from_slice(&0xCAFEu32.to_le_bytes());
+            r.objects = ff(2, body);
         }
         _ => {}
     }
@@ -648,7 +694,7 @@ impl Prop for Outcomes {
     const ID: &'static str = "C16";
     const NAME: &'static str = "outcomes";
     fn rule() -> &'static str {
-        "every user request kind (read, command SBO / direct, time sync LAN / non-LAN / direct write, cold and warm restart, dead-band write, generic empty-response request, link status check, file read with a FileReader that continues or aborts) x fault point: after step k of its protocol the reply is lost, the connection is dropped, the channel is disabled, or the association is removed (or no fault at all, the harness answering every step faithfully), optionally with a second request of any kind waiting in the queue behind it; oracle: the user future resolves exactly once - Ok iff no fault - and the FileReader receives exactly one terminal callback, within (steps + 1) response timeouts of virtual time; non-trivial = a fault after step >= 1 of a multi-step request, or any fault"
+        "every user request kind (read, command SBO / direct, time sync LAN / non-LAN / direct write, cold and warm restart, dead-band write, generic empty-response request, link status check, file read with a FileReader that continues or aborts, file authentication / open / write block / close / info, directory read) x fault point: after step k of its protocol the reply is lost, the connection is dropped, the channel is disabled, or the association is removed (or no fault at all, the harness answering every step faithfully), optionally with a second request of any kind waiting in the queue behind it; oracle: the user future resolves exactly once - Ok iff no fault - and the FileReader receives exactly one terminal callback, within (steps + 1) response timeouts of virtual time; non-trivial = a fault after step >= 1 of a multi-step request, or any fault"
     }
     fn cases(tier: Tier) -> u32 {
         match tier {
@@ -778,6 +824,35 @@ fn submit_kind(rig: &MasterRig, name: &'static str, fl: FileLog) -> Pending {
         }),
         "link_status" => rig.submit(name, async move {
             h.check_link_status().await.map_err(|e| format!("{:?}", e))
+        }),
+        "file_auth" => rig.submit(name, async move {
+            h.get_file_auth_key(FileCredentials { user_name: "u".into(), password: "p".into() })
+                .await
+                .map(|_| ())
+                .map_err(|e| format!("{:?}", e))
+        }),
+        "file_open" => rig.submit(name, async move {
+            h.open_file("a.txt", AuthKey::none(), crate::app::file::Permissions::default(), 0, FileMode::Read, 1024)
+                .await
+                .map(|_| ())
+                .map_err(|e| format!("{:?}", e))
+        }),
+        "file_write_block" => rig.submit(name, async move {
+            h.write_file_block(FileHandle::new(7), BlockNumber::default(), vec![1, 2, 3])
+                .await
+                .map_err(|e| format!("{:?}", e))
+        }),
+        "file_close" => rig.submit(name, async move {
+            h.close_file(FileHandle::new(7)).await.map_err(|e| format!("{:?}", e))
+        }),
+        "file_info" => rig.submit(name, async move {
+            h.get_file_info("a.txt").await.map(|_| ()).map_err(|e| format!("{:?}", e))
+        }),
+        "read_directory" => rig.submit(name, async move {
+            h.read_directory("d", DirReadConfig::default(), None)
+                .await
+                .map(|v| v.len())
+                .map_err(|e| format!("{:?}", e))
         }),
         _ => rig.submit(name, async move {
             h.read_file("a.txt", FileReadConfig::default(), Box::new(fl), None)
@@ -1015,6 +1090,13 @@ async fn judge_outcomes(
         );
     } else {
         let ok = res[0].1.starts_with("Ok");
+        // a directory read is complete when its last block has arrived (open and the one block answered), before the
+        // directory is closed - like a file read
+        let expect_ok = if name == "read_directory" {
+            case.fault == FaultKind::None || fault_after >= 2
+        } else {
+            expect_ok
+        };
         // "... timeout, disconnect, disable or shutdown yields the corresponding error"
         let corresponding = match case.fault {
             FaultKind::ReplyLost => Some("ResponseTimeout"),
@@ -1065,7 +1147,7 @@ async fn judge_outcomes(
 
 pub fn run<C: Codec>(tier: Tier) -> i32 {
     let mut ctx = Ctx::<C>::new("C16", tier);
-    ctx.assumptions.push("'handle dropped / master shut down' is not generated (the rig keeps channel clones alive); directory read, file info, open/write/close and authentication requests share the one-step machinery exercised by the other kinds and are not generated separately".into());
+    ctx.assumptions.push("'handle dropped / master shut down' is not generated (the rig keeps channel clones alive); file DELETE and ABORT are not part of the user API".into());
     ctx.run::<Commands>();
     ctx.run::<Outcomes>();
     ctx.finish()
